@@ -53,7 +53,7 @@ _c = fragcheck.FragCheck(
     profiles=[(3, {}, "mixed"), (2, {"direct_only": True}, "direct"),
               (1, {"max_subs": 5, "max_depth": 4}, "deep"),
               (1, {"max_stmts": 2, "max_depth": 1, "max_subs": 1}, "small")],
-    sizes={"quick": (32, 45), "thorough": (160, 170)},
+    sizes={"quick": (32, 30), "thorough": (160, 120)},
     rule="fragment programs (flat checks, diamonds, loops, shared/nested subroutines, switch/match, gtxn/gtxns reads, "
          "hostile layouts) x representative groups; a (program, detector) pair is non-trivial when an accepting execution "
          "carrying the detector's dangerous value exists (the obligation is live)",
